@@ -45,14 +45,29 @@ lines, meta = [], []
 tries = 0
 while len(meta) < want and tries < 40 * want:
     tries += 1
-    geom = snellexact.random_geometry(rng, max_inc_deg=86.0)
+    if tries % 12 == 0:
+        geom = snellexact.grazing_geometry(rng)      # a block leg within 2 degrees of grazing
+        chk.count(near_grazing_leg=geom is not None)
+    else:
+        geom = snellexact.random_geometry(rng, max_inc_deg=86.0)
     if geom is None or not geom["immersion"] or geom["nlegs"] < 2:
         continue
     att = (float(rng.uniform(0, 3)), float(rng.uniform(0, 8)), float(rng.uniform(0, 12))) if rng.random() < 0.7 else None
+    # half of the set-ups are moved as a whole by a rigid rotation (about z: the rays leave the plane y = 0 while flat walls
+    # keep their normals; or any yaw-pitch-roll): lengths and angles to the local normals are unchanged
+    rigid = None
+    u_ = rng.random()
+    if u_ < 0.3:
+        rigid = arim.geometry.rotation_matrix_z(float(rng.uniform(-np.pi, np.pi)))
+    elif u_ < 0.5:
+        rigid = arim.geometry.rotation_matrix_ypr(*rng.uniform(-np.pi, np.pi, 3))
+    chk.count(rigid_rotation=("none" if rigid is None else "about z" if u_ < 0.3 else "yaw-pitch-roll"))
+    spin = rng.uniform(-np.pi, np.pi, geom["nlegs"] + 1) if rng.random() < 0.5 else None
+    chk.count(local_frames="spun about their normals" if spin is not None else "tangent in the plane of incidence")
     if rng.random() < 0.3:
         # HISTORY on the Path object: a first (coarse) ray tracing through wrongly placed wall samples is looked at, then
         # the rays of the SAME path are replaced by the exact ones; every term must be that of the current rays
-        path = snellexact.arim_path(geom, arim, physical=True, attenuation=att, decoy=float(rng.uniform(0.3e-3, 3e-3)))
+        path = snellexact.arim_path(geom, arim, physical=True, attenuation=att, decoy=float(rng.uniform(0.3e-3, 3e-3)), rigid=rigid, spin=spin)
         exact_rays, path.rays = path.rays, path.decoy_rays
         g0 = arim.ray.RayGeometry.from_path(path)
         for k_ in range(1, g0.numinterfaces):
@@ -62,7 +77,7 @@ while len(meta) < want and tries < 40 * want:
         path.rays = exact_rays
         chk.count(rays_replaced_on_the_same_path=True)
     else:
-        path = snellexact.arim_path(geom, arim, physical=True, attenuation=att)
+        path = snellexact.arim_path(geom, arim, physical=True, attenuation=att, rigid=rigid, spin=spin)
         chk.count(rays_replaced_on_the_same_path=False)
     rg = arim.ray.RayGeometry.from_path(path)
     rpath = path.reverse()
